@@ -2,7 +2,7 @@
 import re
 
 from .lib import PLUMBING, callee_allow, callers, closure_args_of_call, operand_local
-from .lib_c01 import (PRE_FIX_F3_EDITS, VALUE_PRESERVING, Renamed, access_path, bool_switch_of_call, conflict_loop, enum_switches,
+from .lib_c01 import (PRE_FIX_F3_EDITS, VALUE_PRESERVING, Renamed, access_path, bool_switch_of_call, conflict_loop, const_reach, enum_switches,
                       norm_path, resolve_path, sources, version_param)
 from .lib_c01 import edge_is_rejecting as edge_rejects
 
@@ -525,19 +525,109 @@ def r4_key_normalisation(ctx):
 
 
 # --------------------------------------------------------------------------- R5
-# every use of an ApiEndpointVersions operation inside router.rs, by (function, operation): reason
+# every use of an ApiEndpointVersions operation inside router.rs, by (outermost enclosing function, operation): reason.
+# Closures, inlined private helpers and helper fn items count for the function they are written in.
 VERSION_OPS = {
-    ("router::find_handler_matching_version::{closure#0}", "matches"): "selection predicate of lookup (request dispatch, 405 decision, Allow list)",
-    ("router::iter_handlers_from_node::{closure#0}::{closure#0}", "matches"): "selection predicate of the endpoint iterator (OpenAPI listing)",
+    ("router::find_handler_matching_version", "matches"): "selection predicate of lookup (request dispatch, 405 decision, Allow list)",
+    ("router::iter_handlers_from_node", "matches"): "selection predicate of the endpoint iterator (OpenAPI listing)",
     ("router::HttpRouter::<Context>::insert", "overlaps_with"): "registration conflict test (C02.R4)",
     ("router::HttpRouter::<Context>::insert", "eq"): "chooses between the two panic messages inside the overlap branch",
     ("router::HttpRouter::<Context>::insert", "ne"): "has_versioned_routes flag (versions != All)",
 }
+SELECTING = r"iter::Iterator::(find|filter|rfind)$|iter::DoubleEndedIterator::rfind$"
+SELECT_CHAIN = [r"iter::IntoIterator::into_iter$", r"slice::<impl \[T\]>::iter$", r"iter::Iterator::(find|filter|next|last|rev|by_ref|peekable|fuse)$",
+                r"iter::DoubleEndedIterator::(next_back|rfind)$"]
+
+
+def _outermost(ds, f):
+    """The named function a closure (possibly of a helper that was inlined, or a synthetic fn-item closure) is written in."""
+    cur = f
+    for _ in range(8):
+        if cur.raw["kind"] != "Closure":
+            return cur
+        par = ds.F.get(cur.raw.get("parent"))
+        if par is None:
+            hosts = [g for g in ds.F.values() if cur.raw.get("parent") in g.raw.get("inlined", [])]
+            if len(hosts) != 1:
+                return cur
+            par = hosts[0]
+        cur = par
+    return cur
+
+
+def _enclosing_adaptor_calls(ds, h):
+    """Calls (in the enclosing function) that take closure h as an argument: [(fn, bb, term)]."""
+    out = []
+    par = ds.F.get(h.raw.get("parent"))
+    cands = ([par] if par is not None else []) + [g for g in ds.F.values() if h.raw.get("parent") in g.raw.get("inlined", [])]
+    for g in cands:
+        for bb, t in g.live_calls():
+            if any(c is h for c, _n in closure_args_of_call(g, t)):
+                out.append((g, bb, t))
+    return out
+
+
+def _matches_site(ctx, f, bb, t):
+    """Role analysis of one `versions.matches(version)` call, independent of the iteration idiom.
+
+    element : what is tested - ("param", 2) the item parameter of a closure handed to an iterator adaptor, or
+              ("next", next_bb, next_term) the item of an explicit loop
+    verdict : how the result decides selection -
+              "predicate"  the closure returns matches(..) itself and is handed to find / filter / rfind
+              "option"     Some(..the element..) is produced only where matches was true, None only where it was false  (filter_map closure)
+              "loop"       `for e in xs { if e.versions.matches(v) { return Some(e) } } None`: Some(e) only where matches(e) was true, None only
+                           once the iterator is exhausted, and no element gets past the test
+    """
+    ds = ctx.ds
+    out = {"element": None, "verdict": None, "why": ""}
+    p0 = access_path(f, t["args"][0], VP)
+    if f.raw["kind"] == "Closure" and p0.kind() == "param" and p0.root[1] == 2 and p0.ends("versions") and not [c for c in p0.call_names() if not c.endswith("Deref::deref")]:
+        out["element"] = ("param", 2)
+    elif p0.is_call(r"iter::Iterator::next$") and p0.npath() == ["+", "0", "versions"] and not [c for c in p0.call_names() if not c.endswith("Deref::deref")]:
+        out["element"] = ("next", p0.call()[1], p0.call()[2])
+    else:
+        out["why"] = "matches() is applied to %r, which is not `.versions` of the element under iteration" % p0
+        return out
+    atom = ("call", bb)
+    somes = [(b, st) for b, i, st in f.aggregates(r"^std::option::Option$", "Some") if st["pl"]["l"] == 0 and not st["pl"]["p"] and b in f.reachable(0)]
+    nones = [(b, st) for b, i, st in f.aggregates(r"^std::option::Option$", "None") if st["pl"]["l"] == 0 and not st["pl"]["p"] and b in f.reachable(0)]
+    rets = sources(f, {"l": 0, "p": []}, VP)
+    if out["element"][0] == "param":
+        if len(rets) == 1 and rets[0].call() and rets[0].call()[2] is t and not rets[0].path:
+            users = _enclosing_adaptor_calls(ds, f)
+            good = bool(users) and all(re.search(SELECTING, ut.get("callee") or "") for _g, _b, ut in users)
+            out["verdict"] = "predicate" if good else None
+            out["why"] = "closure returns matches(..) itself and is handed to %s" % sorted(set((ut.get("callee") or "?").split("::")[-1] for _g, _b, ut in users))
+            return out
+        oks = bool(somes) and all(f.guarded_by(b, atoms_true=[atom])[0] and 2 in f.slice(st["rv"]["ops"][0]).params() for b, st in somes)
+        okn = bool(nones) and all(f.guarded_by(b, atoms_false=[atom])[0] for b, st in nones)
+        only = all(p.kind() == "agg" and p.root[2].get("adt") == "std::option::Option" for p in rets)
+        out["verdict"] = "option" if oks and okn and only else None
+        out["why"] = "Some(element) only where matches(..) was true: %s; None only where it was false: %s; nothing else is returned: %s" % (oks, okn, only)
+        return out
+    _, nbb, nt = out["element"]
+    ne = _some_edge(f, nt)
+    if ne is None:
+        out["why"] = "no branch on the loop's next()"
+        return out
+    nsw, n_some, n_none = ne
+    oks = bool(somes)
+    for b, st in somes:
+        pe = access_path(f, st["rv"]["ops"][0], VP)
+        oks = oks and f.guarded_by(b, atoms_true=[atom])[0] and pe.call() is not None and pe.call()[2] is nt and pe.npath() == ["+", "0"]
+    okn = bool(nones) and all(f.edge_dominates(nsw, n_none, b) for b, st in nones)
+    only = all(p.kind() == "agg" and p.root[2].get("adt") == "std::option::Option" for p in rets) or \
+        all((p.kind() == "agg" and p.root[2].get("adt") == "std::option::Option") or (p.call() and p.call()[2] is nt and p.npath() == ["+", "0"]) for p in rets)
+    noskip = nbb not in f.reachable(n_some, avoid=[bb]) and not any(r in f.reachable(n_some, avoid=[bb]) for r in f.returns())
+    out["verdict"] = "loop" if oks and okn and only and noskip else None
+    out["why"] = ("Some(element) is returned only where matches(element) was true: %s; None only after the iterator is exhausted: %s; nothing else is returned: %s; "
+                  "no element gets past the test: %s" % (oks, okn, only, noskip))
+    return out
 
 
 def r5_one_version_predicate(ctx):
     R = ctx.rule("C01.R5", "inside router.rs handlers are selected by version only through ApiEndpointVersions::matches(handler.versions, caller's version); "
-                 "find_handler_matching_version returns Iterator::find of exactly that predicate over its argument", floor=8)
+                 "find_handler_matching_version returns the element of its argument selected by exactly that predicate (Iterator::find, filter+next, or the equivalent loop)", floor=10)
     seen = {}
     for f in ctx.ds.F.values():
         if not f.id.startswith("router::"):
@@ -552,63 +642,56 @@ def r5_one_version_predicate(ctx):
                                                       any("ApiEndpointVersions" in f.local_ty(operand_local(a) or 0) for a in t["args"] if operand_local(a) is not None)):
                 op = c.split("::")[-1]
             if op:
-                seen.setdefault((f.id, op), []).append((f, bb, t))
+                seen.setdefault((_outermost(ctx.ds, f).id, op), []).append((f, bb, t))
     for key, sites in sorted(seen.items()):
         ctx.check(R, "version-op:%s:%s" % key, key in VERSION_OPS, "%s — %s" % (key, VERSION_OPS.get(key, "NOT in the reviewed table: a second way of relating handlers and versions in the router")),
                   (sites[0][0], sites[0][1]), nontrivial=False)
     for key in VERSION_OPS:
         if key[1] == "matches" and key not in seen:
             ctx.check(R, "version-op:%s:%s" % key, False, "expected use of matches() not found", None)
-    # each matches(): receiver = item.versions, argument = enclosing function's version parameter, result used un-negated
+    # each matches(): receiver = the element under iteration's .versions, argument = the enclosing function's version parameter, and the
+    # result decides selection un-negated
+    roles = {}
     for key, sites in sorted(seen.items()):
         if key[1] != "matches":
             continue
+        ctx.check(R, "one-matches-site:%s" % key[0], len(sites) == 1, "matches() call sites in %s: %d" % (key[0], len(sites)), (sites[0][0], sites[0][1]), nontrivial=False)
         for f, bb, t in sites:
-            p0 = access_path(f, t["args"][0], VP)
-            ok0 = p0.kind() == "param" and p0.root[1] == 2 and p0.ends("versions")
+            role = _matches_site(ctx, f, bb, t)
+            roles.setdefault(key[0], []).append((f, bb, t, role))
             g, p1 = resolve_path(ctx.ds, f, t["args"][1], VP)
             vp = version_param(g)
             ok1 = p1.kind() == "param" and vp is not None and p1.root[1] == vp and not p1.path and not p1.calls and g.raw["kind"] != "Closure"
-            ctx.check(R, "matches-args:%s" % f.id, ok0 and ok1, "matches(%r, %r in %s)" % (p0, p1, g.id), (f, bb))
-            # polarity
-            ret = access_path(f, {"l": 0, "p": []}, VP)
-            if ret.kind() == "call" and ret.call()[2] is t and not ret.path:
-                okp = True
-                d = "closure returns matches(..) itself"
-            else:
-                sw = bool_switch_of_call(f, bb, t)
-                okp = False
-                d = "result of matches(..) is neither returned nor branched on"
-                if sw:
-                    sbb, tb, fb = sw
-                    some = [b for b, i, st in f.aggregates(r"^std::option::Option$", "Some") if st["pl"]["l"] == 0]
-                    none = [b for b, i, st in f.aggregates(r"^std::option::Option$", "None") if st["pl"]["l"] == 0]
-                    rt, rf = f.reachable(tb), f.reachable(fb)
-                    okp = bool(some) and bool(none) and all(b in rt for b in some) and not any(b in rf for b in some) and all(b in rf for b in none) and not any(b in rt for b in none)
-                    d = "true edge yields Some(..), false edge yields None: %s" % okp
-                    if okp:
-                        # the Some payload carries the tested handler
-                        for b, i, st in f.aggregates(r"^std::option::Option$", "Some"):
-                            if st["pl"]["l"] == 0:
-                                sl = f.slice(st["rv"]["ops"][0])
-                                okp = okp and 2 in sl.params()
-            ctx.check(R, "matches-polarity:%s" % f.id, okp, d, (f, bb))
-    # find_handler_matching_version = an element of `handlers` selected by exactly that predicate (find / filter+next ...)
+            ctx.check(R, "matches-args:%s" % key[0], role["element"] is not None and ok1,
+                      "matches(<%s>.versions, %r in %s)%s" % ("element" if role["element"] else "?", p1, g.id, "" if role["element"] else "; " + role["why"]), (f, bb))
+            ctx.check(R, "matches-polarity:%s" % key[0], role["verdict"] is not None, "%s [%s]" % (role["why"], role["verdict"] or "NOT a selection by the predicate"), (f, bb))
+    # find_handler_matching_version = the element of `handlers` selected by exactly that predicate
     fh = ctx.need_fn(ctx.ds, R, r"^router::find_handler_matching_version$")
-    rs = fh.slice({"l": 0, "p": []})
-    chain = [r"iter::IntoIterator::into_iter$", r"slice::<impl \[T\]>::iter$", r"iter::Iterator::(find|filter|next|last|rev|by_ref|peekable|fuse)$", r"iter::DoubleEndedIterator::(next_back|rfind)$"]
-    bad = callee_allow(rs, PLUMBING + chain)
-    sel = []
-    okcl = True
-    for c, bb, t in rs.callees:
-        for h, node in closure_args_of_call(fh, t):
-            if (h.id, "matches") in seen and re.search(r"::(find|filter|rfind)$", c):
-                sel.append(h.id)
-            else:
-                okcl = False
-    ctx.check(R, "find-selects-by-the-predicate-only", not bad and okcl and len(sel) >= 1 and 1 in rs.params(),
-              "return value is built from parameter(s) %s through %s; selecting closures: %s; other callees: %s"
-              % (rs.params(), sorted(set(c.split("::")[-1] for c in rs.callee_names())), sel, [b[0] for b in bad]), fh)
+    mine = roles.get(fh.id, [])
+    okf = False
+    d = "no single matches() predicate inside find_handler_matching_version"
+    if len(mine) == 1:
+        f, bb, t, role = mine[0]
+        if role["verdict"] == "loop" and f is fh:
+            pit = access_path(fh, role["element"][2]["args"][0], VP + [r"iter::IntoIterator::into_iter$", r"slice::<impl \[T\]>::iter$", r"iter::Iterator::by_ref$"])
+            okf = pit.kind() == "param" and pit.root[1] == 1 and not pit.path and not [c for c in pit.call_names() if not re.search(r"into_iter$|::iter$|by_ref$|Deref::deref$", c)]
+            d = "explicit loop over %r returning the first element for which matches(..) holds" % pit
+        elif role["verdict"] == "predicate" and f is not fh:
+            rs = fh.slice({"l": 0, "p": []})
+            bad = callee_allow(rs, PLUMBING + SELECT_CHAIN)
+            sel, okcl = [], True
+            for c, cbb, ct in rs.callees:
+                for h, node in closure_args_of_call(fh, ct):
+                    if h is f and re.search(SELECTING, c):
+                        sel.append(h.id)
+                    else:
+                        okcl = False
+            okf = not bad and okcl and len(sel) >= 1 and 1 in rs.params()
+            d = "return value is built from parameter(s) %s through %s; selecting closures: %s; other callees: %s" % (
+                rs.params(), sorted(set(c.split("::")[-1] for c in rs.callee_names())), sel, [b[0] for b in bad])
+        else:
+            d = "the predicate is used as `%s`, which does not return the selected element of `handlers`" % role["verdict"]
+    ctx.check(R, "find-selects-by-the-predicate-only", okf, d, fh)
 
 
 # --------------------------------------------------------------------------- R6
@@ -666,6 +749,46 @@ def _versioned_edges(ins):
     return edges, how, sws
 
 
+def _is_ne_all(ins, p):
+    """Path p is the result of `endpoint.versions != ApiEndpointVersions::All`."""
+    if not (p.is_call(r"cmp::PartialEq::ne$") and not p.path):
+        return False
+    t = p.call()[2]
+    x, y = access_path(ins, t["args"][0], VP), access_path(ins, t["args"][1], VP)
+    return any(q.kind() == "param" and q.root[1] == 2 and q.path == ["versions"] for q in (x, y)) and \
+        any(q.kind() == "agg" and q.root[2].get("variant") == "All" for q in (x, y))
+
+
+def _store_is_sticky_or(ins, op, vedges):
+    """The stored value is `old_flag || versioned`, written with short-circuit control flow (`a = a || b`, `if !a { a = b }` ..):
+    every value it can receive is (i) the constant true, (ii) the != All test, computed only where the old flag was found false, or
+    (iii) the old flag, kept only where the endpoint was found unversioned."""
+    srcs = sources(ins, op, [])
+    if len(srcs) < 2:
+        return False
+    flag_false_edges = []
+    for sbb, st in ins.switches():
+        d = st["discr"]
+        if d.get("k") in ("copy", "move"):
+            q = access_path(ins, d, [])
+            if q.kind() == "param" and q.root[1] == 1 and q.path == [FLAG] and not q.calls:
+                tb, fb = ins.bool_edges(sbb)
+                if fb is not None:
+                    flag_false_edges.append((sbb, fb))
+    for p in srcs:
+        hops = [hb for _l, hb in p.hops]
+        if p.kind() == "const" and (p.root[2].get("val") or {}).get("int") == 1:
+            continue
+        # (the value reaches the store only through the definitions in `hops`: one of them being guarded is enough)
+        if _is_ne_all(ins, p) and any(ins.edge_dominates(sbb, fb, hb) for sbb, fb in flag_false_edges for hb in hops):
+            continue
+        if p.kind() == "param" and p.root[1] == 1 and p.path == [FLAG] and not p.calls and vedges and \
+                any(all(hb not in ins.reachable(dst) for _src, dst in vedges) for hb in hops):
+            continue
+        return False
+    return True
+
+
 def r7_versioned_routes_need_versioned_server(ctx):
     R = ctx.rule("C01.R7", "a router that holds any endpoint with a version range is never served without a version policy: has_versioned_routes starts false, is only ever set to true, "
                  "is set on every path of insert that registers an endpoint whose versions != All, is what has_versioned_routes() returns, and the one place that builds the server state "
@@ -713,6 +836,11 @@ def r7_versioned_routes_need_versioned_server(ctx):
                     ctx.check(R, "flag-store:sticky-or", True, "insert stores flag | (endpoint.versions != All)", (g, bb))
                     sticky_unconditional.append(bb)
                     continue
+        if g is ins and rv["rv"] == "use" and rv["op"].get("k") in ("copy", "move") and _store_is_sticky_or(ins, rv["op"], vedges):
+            ctx.check(R, "flag-store:sticky-or", True, "insert stores flag || (endpoint.versions != All) (every value the store can receive is `true`, the old flag "
+                      "where the endpoint is unversioned, or the != All test where the old flag was false)", (g, bb))
+            sticky_unconditional.append(bb)
+            continue
         ctx.check(R, "flag-store:%s" % g.id, False, "%s is assigned a value that is not the constant `true` (a computed or `false` value forgets earlier versioned endpoints)" % FLAG, (g, bb))
     if not stores:
         ctx.check(R, "flag-store:constant-true", False, "no store to %s anywhere: versioned routes are never recorded" % FLAG, ins)
@@ -722,11 +850,12 @@ def r7_versioned_routes_need_versioned_server(ctx):
         okp = ins.must_pass(sticky_unconditional)
         d = "the sticky store lies on every path of insert to its return: %s" % okp
     else:
-        okp = bool(vedges) and bool(guarded) and all(not any(r in ins.reachable(dst, avoid=guarded) for r in rets) for src, dst in vedges) and ins.must_pass(vsws)
+        # (constant flags such as the result of `matches!(..)` are propagated: see const_reach)
+        okp = bool(vedges) and bool(guarded) and all(not any(r in const_reach(ins, dst, avoid=guarded) for r in rets) for src, dst in vedges) and ins.must_pass(vsws)
         d = "test `%s` is on every path to return and from its `versioned` edge the store cannot be avoided: %s" % (", ".join(how) or "<none found>", okp)
     ctx.check(R, "versioned-endpoint-always-recorded", okp, d, ins)
     if guarded:
-        okg = bool(vedges) and all(b not in ins.reachable(0, avoid_edges=vedges) for b in guarded)
+        okg = bool(vedges) and all(b not in const_reach(ins, 0, avoid_edges=vedges) for b in guarded)
         ctx.check(R, "store-only-for-versioned-endpoints", okg, "the store is reachable only through the `versions != All` edge: %s" % okg, (ins, guarded[0]))
     # (b) accessor
     acc = ctx.need_fn(ctx.ds, R, r"^router::HttpRouter::<Context>::has_versioned_routes$")
@@ -765,10 +894,15 @@ def r7_versioned_routes_need_versioned_server(ctx):
     sbb, tb, fb = sw
     pbb, pinfo, ptg = psw[0]
     unv = ptg.get("Unversioned")
-    refuse = edge_rejects(f, sbb, tb) and abb not in f.reachable(tb)
-    consulted = unv is not None and all(ptg[o] != unv for o in ptg if o != "Unversioned") and abb not in f.reachable(unv, avoid=[cbb]) and f.dominates(pbb, abb)
-    ctx.check(R, "unversioned-policy-with-versioned-routes-refused", refuse and consulted,
-              "policy Unversioned -> has_versioned_routes() is consulted on every path to the server state: %s; true -> Err and no server state is built: %s" % (consulted, refuse), (f, sbb))
+    distinct = unv is not None and all(ptg[o] != unv for o in ptg if o != "Unversioned")
+    A, B = (pbb, unv), (sbb, tb)         # the edges `policy is Unversioned` and `has_versioned_routes() is true`
+
+    def nested(X, Y, y_site):
+        """Y is tested on X's edge: the state is built only after X was decided, on X's edge only once Y was consulted, never on Y's edge (which answers Err)."""
+        return f.dominates(X[0], abb) and abb not in const_reach(f, X[1], avoid=[y_site]) and abb not in const_reach(f, Y[1]) and edge_rejects(f, Y[0], Y[1])
+    order = "policy, then flag" if distinct and nested(A, B, cbb) else ("flag, then policy" if distinct and nested(B, A, pbb) else None)
+    ctx.check(R, "unversioned-policy-with-versioned-routes-refused", order is not None,
+              "policy Unversioned and has_versioned_routes() true -> Err and no server state is built, on every path (tests nested as: %s)" % (order or "NOT established"), (f, sbb))
 
 
 def r6e2_overlap_table(ctx):
@@ -846,6 +980,33 @@ SELFTEST = [
     {"name": "literal-lookup-case-folded", "kind": "mutant", "expect": ["C01.R3"],
      "edits": [(RT, "edges.get(&segment_string)", "edges.get(&segment_string.to_lowercase())")],
      "why": "a request path that differs in case from the template is dispatched to the endpoint (and the exact spelling with upper case is not)"},
+    # ---- breaking changes written in the alternative idioms the rules accept (the tolerance must not cost power)
+    {"name": "wildcard-extend-reversed", "kind": "mutant", "expect": ["C01.R3"],
+     "edits": [(RT, "                    while let Some(segment) = all_segments.next() {\n                        rest.push(segment);\n                    }\n",
+                "                    rest.extend(all_segments.by_ref().rev());\n")],
+     "why": "the remaining segments are appended with extend(), but in reverse order"},
+    {"name": "wildcard-extend-skips-one", "kind": "mutant", "expect": ["C01.R3"],
+     "edits": [(RT, "                    while let Some(segment) = all_segments.next() {\n                        rest.push(segment);\n                    }\n",
+                "                    rest.extend(all_segments.by_ref().skip(1));\n")],
+     "why": "extend() of the walk's iterator behind an adaptor: one of the remaining segments is dropped"},
+    {"name": "selection-loop-negated", "kind": "mutant", "expect": ["C01.R5"],
+     "edits": [(RT, "handlers.into_iter().find(|h| h.versions.matches(version))",
+                "for h in handlers {\n        if !h.versions.matches(version) {\n            return Some(h);\n        }\n    }\n    None")],
+     "why": "selection written as a loop that returns the first handler NOT serving the request's version"},
+    {"name": "selection-loop-gives-up-early", "kind": "mutant", "expect": ["C01.R5"],
+     "edits": [(RT, "handlers.into_iter().find(|h| h.versions.matches(version))",
+                "for h in handlers {\n        if h.versions.matches(version) {\n            return Some(h);\n        }\n        break;\n    }\n    None")],
+     "why": "selection written as a loop that only ever tests the first registered handler"},
+    {"name": "versioned-flag-matches-inverted", "kind": "mutant", "expect": ["C01.R7"],
+     "edits": [(RT, "        if endpoint.versions != ApiEndpointVersions::All {\n            self.has_versioned_routes = true;",
+                "        if matches!(endpoint.versions, ApiEndpointVersions::All) {\n            self.has_versioned_routes = true;")],
+     "why": "the flag is set for unversioned endpoints and not for versioned ones"},
+    {"name": "walk-advances-to-wrong-child", "kind": "mutant", "expect": ["C01.R3"],
+     "edits": [(RT, "            node = match &node.edges {\n                None => None,", "            let next_node = match &node.edges {\n                None => None,"),
+               (RT, '            }\n            .ok_or_else(|| {\n                HttpError::for_not_found(\n                    None,\n                    String::from("no route found (no path in router)"),\n                )\n            })?\n', "            };\n            node = match next_node {\n                Some(_found) => &self.root,\n"
+                "                None => {\n                    return Err(HttpError::for_not_found(\n                        None,\n"
+                "                        String::from(\"no route found (no path in router)\"),\n                    ))\n                }\n            };\n")],
+     "why": "the cursor is advanced by an explicit match, but to the root instead of the matched edge's child"},
     # ---------------------------------------------------------------- benign variants
     {"name": "benign-extra-statement-in-walk", "kind": "benign",
      "edits": [(RT, "            let segment_string = segment.to_string();\n", "            let segment_string = segment.to_string();\n            let _depth = variables.len();\n")],
@@ -869,6 +1030,32 @@ SELFTEST = [
      "edits": [(SV, "        if let VersionPolicy::Unversioned = version_policy {\n            if router.has_versioned_routes() {\n                return Err(BuildError::UnversionedServerHasVersionedRoutes);\n            }\n        }\n",
                 "        match version_policy {\n            VersionPolicy::Unversioned if router.has_versioned_routes() => {\n                return Err(BuildError::UnversionedServerHasVersionedRoutes);\n            }\n            _ => {}\n        }\n")],
      "why": "behaviour-preserving: nested if-let / if written as a match with a guard"},
+    {"name": "benign-walk-child-bound-by-match", "kind": "benign",
+     "edits": [(RT, "            node = match &node.edges {\n                None => None,", "            let next_node = match &node.edges {\n                None => None,"),
+               (RT, '            }\n            .ok_or_else(|| {\n                HttpError::for_not_found(\n                    None,\n                    String::from("no route found (no path in router)"),\n                )\n            })?\n', "            };\n            node = match next_node {\n                Some(found) => found,\n"
+                "                None => {\n                    return Err(HttpError::for_not_found(\n                        None,\n"
+                "                        String::from(\"no route found (no path in router)\"),\n                    ))\n                }\n            };\n")],
+     "why": "behaviour-preserving: `match {..}.ok_or_else(..)?` written as a named Option and an explicit match with early return"},
+    {"name": "benign-rest-extended-from-iterator", "kind": "benign",
+     "edits": [(RT, "                    while let Some(segment) = all_segments.next() {\n                        rest.push(segment);\n                    }\n",
+                "                    rest.extend(all_segments.by_ref());\n")],
+     "why": "behaviour-preserving: the drain loop written as Vec::extend over the walk's own iterator"},
+    {"name": "benign-selection-as-for-loop", "kind": "benign",
+     "edits": [(RT, "handlers.into_iter().find(|h| h.versions.matches(version))",
+                "for candidate in handlers {\n        if candidate.versions.matches(version) {\n            return Some(candidate);\n        }\n    }\n    None")],
+     "why": "behaviour-preserving: Iterator::find written as a for loop with early return"},
+    {"name": "benign-request-version-by-match", "kind": "benign",
+     "edits": [(SV, "        server.version_policy.request_version(&request, &request_log)?;",
+                "        match server.version_policy.request_version(&request, &request_log) {\n            Ok(v) => v,\n            Err(e) => return Err(HandlerError::from(e)),\n        };")],
+     "why": "behaviour-preserving: `?` written as match + From::from + return"},
+    {"name": "benign-flag-by-matches-macro", "kind": "benign",
+     "edits": [(RT, "        if endpoint.versions != ApiEndpointVersions::All {\n            self.has_versioned_routes = true;",
+                "        let is_versioned = !matches!(endpoint.versions, ApiEndpointVersions::All);\n        if is_versioned {\n            self.has_versioned_routes = true;")],
+     "why": "behaviour-preserving: != All written as !matches!(.., All) bound to a named flag"},
+    {"name": "benign-policy-check-combined-condition", "kind": "benign",
+     "edits": [(SV, "        if let VersionPolicy::Unversioned = version_policy {\n            if router.has_versioned_routes() {\n                return Err(BuildError::UnversionedServerHasVersionedRoutes);\n            }\n        }\n",
+                "        let unversioned = matches!(version_policy, VersionPolicy::Unversioned);\n        if unversioned && router.has_versioned_routes() {\n            return Err(BuildError::UnversionedServerHasVersionedRoutes);\n        }\n")],
+     "why": "behaviour-preserving: nested if-let / if written as a named flag && the accessor"},
     {"name": "benign-segment-clone", "kind": "benign",
      "edits": [(RT, "let segment_string = segment.to_string();", "let segment_string = segment.clone();")],
      "why": "behaviour-preserving: String::clone instead of to_string"},
